@@ -185,7 +185,7 @@ RULES = [
 ]
 
 MANIFEST = {
-    "text": "Static decision that each listed fault has a guard on the right component region with the listed error constant: rejection lists (Err definitions of the return place with the canonical atoms of their incoming edges; `?` propagations with callee role and argument region) are extracted from MIR for parser, decoders, qualifier map entry points, build(), checksum parse/serialise and the built-in package type, and matched row by row against the fault table transcribed from the property; predicate alphabets are computed by char-class translation; lossy UTF-8 APIs are absent from all call sites.",
+    "text": "Static decision that each listed fault has a guard on the right component region with the listed error constant: rejection lists (Err definitions of the return place with the canonical atoms of their incoming edges; `?` propagations with callee role and argument region) are extracted from MIR for parser, decoders, qualifier map entry points, build(), checksum parse/serialise and the built-in package type, and matched row by row against the fault table transcribed from the property; predicate alphabets are computed by char-class translation; lossy UTF-8 APIs are absent from all call sites. The 'repeated in any letter case' clauses additionally rest on the case folding behind the duplicate tests: the qualifier-key comparator (C11's invariant obligations, rule QM-INV) and the lower-caser that keys the checksum parser's map (char-wise to_lowercase on every char, rule DUP-CASE).",
     "note": "Trusted: rustc MIR, extractor, callee semantics (strict decode_utf8, strip_prefix byte-wise, split/rsplit_once). Not decided: precedence among simultaneous faults; behaviour inside dependencies.",
     "technique": "rejection-list extraction (return-place definitions + edge guard atoms over region terms) matched against a reference fault table; boolean/char-class summaries; call-site denylist",
     "design_ref": "DESIGN.md 5.5",
